@@ -29,8 +29,16 @@ def materialize(tree, parent, seed=None):
     for d in tree.get("dirs", []):
         os.makedirs(os.path.join(root, *d), exist_ok=True)
     for f in tree["files"]:
+        if "link_of" in f:
+            continue
         write_file(os.path.join(root, *f["path"]),
                    content(tree_key(tree, f), f["size"], f.get("gen", 0), seed, f.get("mode", "rand")))
+    for f in tree["files"]:
+        if "link_of" in f:      # a second name for the same inode (hard link): still a regular file
+            src = os.path.join(root, *tree["files"][f["link_of"]]["path"])
+            dst = os.path.join(root, *f["path"])
+            os.makedirs(os.path.dirname(dst), exist_ok=True)
+            os.link(src, dst)
     return root
 
 
